@@ -105,7 +105,12 @@ impl<'a, C: Crypto> PaseResponder<'a, C> {
     }
 
     async fn handle_inner(&mut self, exchange: &mut Exchange<'_>) -> Result<bool, Error> {
-        let mut session = ReservedSession::reserve(exchange.matter(), &self.crypto).await?;
+        let Some(mut session) =
+            crate::sc::reserve_session_or_busy(exchange, &self.crypto).await?
+        else {
+            // Not a wrong-passcode attempt: answered with `Busy`
+            return Ok(true);
+        };
 
         if !self.update_session_timeout(exchange, true).await? {
             return Ok(true);
